@@ -507,14 +507,15 @@ Fixpoint loc_object (o : sobj) (l : list attr) (dates : nat) : outcome :=
   | a :: t =>
     q_applicable (so_otype o) (a_name a) (fun ok =>
       if negb ok then Go else
+      (* an object without a value for the filter attribute does not match (repo commit 2d8db5c) *)
       match attr_field (a_name a) with
-      | None => loc_object o t dates
+      | None => Go
       | Some f =>
         rd_get1 (so_class o) f
           (if String.eqb (a_name a) "Initial Date" then
              (if (2 <=? dates)%nat then Done else loc_object o t (S dates))
            else if loc_match o a then loc_object o t dates else Go)
-          (loc_object o t dates)
+          Go
       end)
   end.
 
@@ -530,8 +531,12 @@ Fixpoint loc_store (s : store) (l : list attr) : outcome :=
     else loc_store t l
   end.
 
-Definition h_locate (s : store) (l : list attr) : outcome :=
-  match l with [] => Done | _ => loc_store s l end.
+(* filter attributes the protocol version does not have are refused before any object is looked at (repo commit 1a2a215) *)
+Definition h_locate (v : version) (s : store) (l : list attr) : outcome :=
+  match l with
+  | [] => Done
+  | _ => if existsb (fun a => negb (q_supported v (a_name a))) l then Done else loc_store s l
+  end.
 
 (* ---- Get *)
 Definition GET := "_process_get".
@@ -809,7 +814,7 @@ Definition step_raw (v : version) (s : store) (cr : cres) (it : item) : outcome 
   | ICreateKeyPair c pr pu => h_create_key_pair v cr c pr pu
   | IRegister otype sec ta => h_register v otype sec ta
   | IDeriveKey otype uids hd hp ta => h_derive_key v s cr otype uids hd hp ta
-  | ILocate l => h_locate s l
+  | ILocate l => h_locate v s l
   | IGet u kft comp w => h_get s cr u kft comp w
   | IGetAttributes u names => h_get_attributes v s u names false
   | IGetAttributeList u => h_get_attributes v s u [] true
